@@ -835,3 +835,89 @@ func paramIs(name string, i int, av AV) VM {
 		return map[ssa.Value]AV{fn.Params[i]: av}
 	}}
 }
+
+// deref looks through the virtual inlining when a rule needs the defining
+// instruction of a value: a parameter of a spliced helper is the caller's
+// argument; a call to a spliced single-return helper is the returned value.
+func deref(v ssa.Value) ssa.Value {
+	for i := 0; i < 8; i++ {
+		switch x := v.(type) {
+		case *ssa.Parameter:
+			site := helperSite[x.Parent()]
+			if site == nil {
+				return v
+			}
+			moved := false
+			for k, pr := range x.Parent().Params {
+				if pr == x && k < len(site.Call.Args) {
+					v, moved = site.Call.Args[k], true
+				}
+			}
+			if !moved {
+				return v
+			}
+		case *ssa.Call:
+			h := isInlined(x)
+			if h == nil || h.Signature.Results().Len() != 1 {
+				return v
+			}
+			rs := vfuncOf(h).rets[h]
+			if len(rs) != 1 {
+				return v
+			}
+			v = rs[0].Results[0]
+		case *ssa.ChangeType:
+			v = x.X
+		default:
+			return v
+		}
+	}
+	return v
+}
+
+var theCtx *Ctx
+
+// wrappers: in-repo functions (not spliced) that transitively, through static calls, call one of targets.
+func wrappers(targets ...string) map[string]bool {
+	t := map[string]bool{}
+	for _, x := range targets {
+		t[x] = true
+	}
+	w := map[string]bool{}
+	if theCtx == nil {
+		return w
+	}
+	changed := true
+	for changed {
+		changed = false
+		for _, f := range theCtx.ProdFuncs() {
+			n := funcName(f)
+			if w[n] || t[n] || f.Parent() != nil {
+				continue
+			}
+			for _, cs := range callSites(f, false) {
+				c := cs.Callee()
+				if t[c] || w[c] {
+					w[n] = true
+					changed = true
+					break
+				}
+			}
+		}
+	}
+	return w
+}
+
+// callSinksVia: like callSinks, but a call to an unexported in-repo wrapper that
+// (transitively) performs the target call also counts as the effect.
+func callSinksVia(fn *ssa.Function, label string, callees ...string) []Sink {
+	out := callSinks(fn, label, callees...)
+	w := wrappers(callees...)
+	for _, cs := range callSites(fn, false) {
+		c := cs.Callee()
+		if w[c] && !mentioned[c] {
+			out = append(out, Sink{cs.Instr, label + " (via " + c + ")"})
+		}
+	}
+	return out
+}
